@@ -61,10 +61,10 @@ var c14Types = []*c14Type{
 }
 
 var (
-	c14Pool   []typedef.MesgNum                     // every message number some file type holds typed
-	c14Extra  = []typedef.MesgNum{mesgnum.Set, mesgnum.CoursePoint, mesgnum.Record, mesgnum.Event, mesgnum.Hrv, mesgnum.Monitoring, 0xFF00, 0xFF01, 400}
-	c14Fields = map[typedef.MesgNum][]proto.Field{} // known fields per message
-	c14Modes  = map[string]string{}
+	c14Pool     []typedef.MesgNum // every message number some file type holds typed
+	c14Extra    = []typedef.MesgNum{mesgnum.Set, mesgnum.CoursePoint, mesgnum.Record, mesgnum.Event, mesgnum.Hrv, mesgnum.Monitoring, 0xFF00, 0xFF01, 400}
+	c14Fields   = map[typedef.MesgNum][]proto.Field{} // known fields per message
+	c14Modes    = map[string]string{}
 	c14ModesArg string
 )
 
